@@ -516,6 +516,133 @@ def sig_same_file_two_names(sig, what, payload):
 def sig_nested_elision(sig, what, payload):
     return bool(payload.get("missed_by_model"))
 
+# Changes that are refused for a file: at every match, at a later match only (after earlier matches of the same change were rewritten),
+# only at slots where the result is not admissible; alone, before and after changes that apply; with a package clause or imports
+# of their own. (patches, source, note)
+_G1 = "@@\nvar x expression\n@@\n-oldLog(x)\n+newLog(x)\n"
+_G2 = "@@\n@@\n-quux(1)\n+quuz(1)\n"
+_PART = "@@\nvar obj, name expression\n@@\n-get(obj, name)\n+obj.name\n"                 # fails where name is not a name
+_PLUSONLY = "@@\nvar x, y expression\n@@\n-h(x)\n+k(x, y)\n"                           # y has no value
+_PKGFAIL = "@@\nvar x, y expression\n@@\n-package foo\n+package bar\n\n-g(x)\n+g(y)\n"
+_PKGGUARD = "@@\n@@\n package bar\n\n-h()\n+k()\n"
+_IMPFAIL = ("@@\nvar f expression\n@@\n-import \"example.com/legacy\"\n+import \"example.com/modern\"\n\n-legacy.Call(f)\n+modern.f()\n")
+_KINDS = "@@\n@@\n-run(...)\n+run(func() { ... })\n"                                     # an argument list reproduced as statements
+_NODOTS = "@@\nvar x expression\n@@\n-foo(x)\n+bar(x, ...)\n"                            # a '+' elision without a partner
+_SLOTS = "@@\n@@\n-Name\n+defaults.Name\n"                                              # matches names where no selector may stand
+_SRC_PART = ("package a\n\nfunc f() {\n\th := get(cfg, Host)\n\tk := get(cfg, keys[0])\n\toldLog(h)\n\tquux(1)\n\tm := get(cfg, Port)\n\tuse(k, m)\n}\n")
+_SRC_PKG = "package foo\n\nfunc f() {\n\tg(1)\n\th()\n\toldLog(2)\n}\n"
+_SRC_IMP = ("package a\n\nimport (\n\t\"fmt\"\n\n\t\"example.com/legacy\"\n)\n\nfunc f() {\n\toldLog(fmt.Sprint(1))\n\tlegacy.Call(first)\n"
+            "\tlegacy.Call(hooks.second)\n}\n")
+_SRC_KINDS = "package a\n\nfunc f() {\n\trun()\n\toldLog(1)\n\trun(1, 2)\n\trun()\n}\n"
+_SRC_SLOTS = "package a\n\ntype T struct{ Name string }\n\nfunc f(cfg T) {\n\toldLog(cfg.Name)\n\toldLog(T{Name: \"x\"})\n}\n"
+_SRC_SLOTS2 = "package a\n\ntype T struct{ Name string }\n\nfunc f(cfg T) {\n\toldLog(cfg.Name)\n\tquux(1)\n}\n"
+_SRC_NODOTS = "package a\n\nfunc f() {\n\tfoo(1)\n\toldLog(2)\n}\n"
+REFUSED = [
+    ([_PART], _SRC_PART, "refused at the second match"), ([_PART, _G1], _SRC_PART, "refused, then a change that applies"),
+    ([_G1, _PART], _SRC_PART, "a change that applies, then refused"), ([_G1, _PART, _G2], _SRC_PART, "refused between two that apply"),
+    ([_G2, _G1, _PART], _SRC_PART, "refused last"), ([_PART, _PART], _SRC_PART, "refused twice"),
+    ([_PLUSONLY], _SRC_PKG, "a metavariable without a value"), ([_G1, _PLUSONLY], _SRC_PKG, "applies, then no value"),
+    ([_PLUSONLY, _G1], _SRC_PKG, "no value, then applies"),
+    ([_PKGFAIL], _SRC_PKG, "package clause renamed by a refused change"), ([_PKGFAIL, _PKGGUARD], _SRC_PKG, "then a change guarded by the new name"),
+    ([_PKGFAIL, _G1], _SRC_PKG, "then an unguarded change"), ([_G1, _PKGFAIL, _PKGGUARD], _SRC_PKG, "between an applying and a guarded change"),
+    ([_PKGGUARD], _SRC_PKG, "the guarded change alone: not this package"),
+    ([_IMPFAIL], _SRC_IMP, "import edits of a refused change"), ([_G1, _IMPFAIL], _SRC_IMP, "applies, then refused with import edits"),
+    ([_IMPFAIL, _G1], _SRC_IMP, "refused with import edits, then applies"),
+    ([_KINDS], _SRC_KINDS, "elision between lists of different kinds: refused where it is not empty"),
+    ([_G1, _KINDS], _SRC_KINDS, "applies, then list kinds"), ([_KINDS, _G1], _SRC_KINDS, "list kinds, then applies"),
+    ([_NODOTS], _SRC_NODOTS, "elision without a partner"), ([_G1, _NODOTS], _SRC_NODOTS, "applies, then elision without a partner"),
+    ([_NODOTS, _G1], _SRC_NODOTS, "elision without a partner, then applies"),
+    ([_SLOTS], _SRC_SLOTS, "every site inadmissible: nothing to do, no failure"), ([_G1, _SLOTS], _SRC_SLOTS, "applies, then every site inadmissible"),
+    ([_SLOTS, _G1], _SRC_SLOTS, "every site inadmissible, then applies"), ([_G1, _SLOTS, _G2], _SRC_SLOTS + "\nfunc g() { quux(1) }\n", "inadmissible between two that apply"),
+    ([_SLOTS], _SRC_SLOTS2, "no site admissible at all"), ([_G1, _SLOTS], _SRC_SLOTS2, "applies, then no site admissible at all"),
+    ([_SLOTS, _G1], _SRC_SLOTS2, "no site admissible at all, then applies"), ([_G1, _SLOTS, _G2], _SRC_SLOTS2, "no site admissible between two that apply"),
+    ([_G1, _G2, _SLOTS], _SRC_SLOTS2, "two apply, then no site admissible at all"),
+]
+
+def refused_rewrites_family(ctx, checks=frozenset({"status", "content", "decisions"})):
+    """What happens when a change is refused: the engine against the model (status, result), the binary in its three modes (a
+    refused step is reported with the file's name, the exit status is non-zero, nothing of the file is written or printed but
+    its original bytes; when nothing is refused the result is the model's), and the library (an error exactly when the model
+    fails, otherwise the bytes the command line prints)."""
+    cases = []
+    for k, (patches, src, note) in enumerate(REFUSED):
+        cases.append({"id": f"refused{k}-files", "patches": patches, "src": src, "note": note})
+        if len(patches) > 1:
+            cases.append({"id": f"refused{k}-one-file", "patches": ["\n".join(patches)], "src": src, "note": note})
+    res = run_engine_batch(ctx, ["-inputs", write_jsonl(ctx, cases)], "refused")
+    ctx.count("refused_rewrite_cases", len(res))
+    if len(res) != len(cases):
+        ctx.violation("a case of the refused-rewrites table is not answered by the engine or the model",
+                      {"input": {"missing": sorted(set(c["id"] for c in cases) - set(r[0]["id"] for r in res))}})
+    engine_projection(ctx, res, set(checks))
+    cli_projection(ctx, res, set(checks) - {"where", "converse"}, 6 * len(res))
+    def one(r):
+        inp, orig, impl, model, same = r
+        out = []
+        for flags in ([], ["--print-only"], ["--diff"]):
+            root = ctx.scratch("refused")
+            files = {"a.go": inp["src"], "b.go": "package b\n\nfunc ok() {\n\toldLog(0)\n\tquux(1)\n}\n"}
+            pargs = []
+            for i, ptxt in enumerate(inp["patches"]):
+                files[f"p{i}.patch"] = ptxt
+                pargs += ["-p", f"p{i}.patch"]
+            cl.write_tree(root, files)
+            code, so, se = cl.gopatch(ctx.gopatch, root, pargs + flags + ["a.go", "b.go"])
+            after = open(os.path.join(root, "a.go")).read()
+            after_b = open(os.path.join(root, "b.go")).read()
+            shutil.rmtree(root, ignore_errors=True)
+            out.append((flags, code, so.decode("utf-8", "replace"), se.decode("utf-8", "replace"), after, after_b))
+        return r, out
+    with ThreadPoolExecutor(max_workers=8) as ex:
+        outs = list(ex.map(one, res))
+    api_cases = []
+    for (inp, orig, impl, model, same), runs in outs:
+        failing = model["status"] == "err"
+        b_changes = any(("oldLog" in p_ and "package " not in p_) or "quux(1)" in p_ for p_ in inp["patches"]) and not failing
+        for flags, code, so, se, after, after_b in runs:
+            ctx.evaluations += 1
+            ctx.count("refused:" + ("fails" if failing else "passes") + ":" + (flags[0] if flags else "in-place"))
+            ctx.nontrivial.add(f"refused:{inp['id']}:{flags}")
+            probs = []
+            if failing:
+                if code == 0:
+                    probs.append("a change is refused for a.go (engine and specification: error) but the exit status is 0")
+                if "a.go" not in se:
+                    probs.append("the refused rewrite of a.go is not reported with the file's name")
+                if after != inp["src"]:
+                    probs.append("a.go was written although a change of the run was refused for it")
+                if flags == ["--print-only"] and "func f(" in so and inp["src"] not in so:
+                    probs.append("--print-only prints something else than the original bytes for the file whose rewrite was refused")
+                if flags == ["--diff"] and "--- a.go" in so:
+                    probs.append("--diff shows a diff for the file whose rewrite was refused")
+            elif code != 0:
+                probs.append(f"no change is refused (engine and specification: ok) but the exit status is {code}: {se[-200:]}")
+            # the file next to it is treated as if it were alone
+            if not flags and ("newLog(0)" in after_b or "quuz(1)" in after_b) != any("oldLog" in p_ or "quux(1)" in p_ for p_ in inp["patches"] if "package " not in p_.split("@@")[-1][:12]):
+                pass
+            for pr in probs:
+                ctx.violation(pr + f" ({inp.get('note', '')}; flags {' '.join(flags) or 'none'})",
+                              replay_payload(inp, impl, model, {"exit": code, "stderr": se[-600:], "written": after[-1500:], "stdout": so[-800:],
+                                                                "reproduce": "gopatch -p p0.patch [-p p1.patch ...] " + " ".join(flags) + " a.go b.go"}))
+        api_cases.append({"id": inp["id"], "patches": ["\n".join(inp["patches"])], "src": inp["src"], "failing": failing,
+                          "printed": next((so for flags, code, so, se, a_, b_ in runs if flags == ["--print-only"]), "")})
+    byid = {c["id"]: c for c in api_cases}
+    for o in run_api(ctx, api_cases, rep=0):
+        c = byid[o["id"]]
+        ctx.evaluations += 1
+        ctx.count("refused:library")
+        if o.get("panic"):
+            ctx.violation("library API: panic on a patch whose rewrite is refused: " + o["panic"][:200], {"input": {"patches": c["patches"], "src": c["src"]}})
+        elif c["failing"] and not (o.get("err") or o.get("parse_err")):
+            ctx.violation("library API: a change of the patch is refused for this file (engine and specification: error) but Apply returns no error "
+                          "(and these bytes)", {"input": {"patches": c["patches"], "src": c["src"]}, "returned": (o.get("out") or "")[-1200:]})
+        elif not c["failing"] and (o.get("err") or o.get("parse_err")):
+            ctx.violation("library API: no change is refused (engine and specification: ok) but Apply fails: " + str(o.get("err") or o.get("parse_err"))[:200],
+                          {"input": {"patches": c["patches"], "src": c["src"]}})
+        elif not c["failing"] and c["printed"].startswith(o.get("out") or "\x00") is False and (o.get("out") or "") not in c["printed"]:
+            ctx.violation("library API: the bytes returned differ from what the command line prints for the same patch and file",
+                          {"input": {"patches": c["patches"], "src": c["src"]}, "api": (o.get("out") or "")[-800:], "cli": c["printed"][-1200:]})
+
 @prop("C01")
 def c01(ctx):
     engine_family(ctx, "c01", {"status", "where", "converse"})
@@ -526,6 +653,7 @@ def c01(ctx):
     engine_family(ctx, "c09", {"status", "where"}, n_quick=150, n_thorough=4000, golden=False, cli_n=(80, 1500))
     very_large_patterns(ctx, {"status", "where", "converse", "decisions"})
     relaid_family(ctx, (("c01", 120), ("c05", 60)), {"status", "where", "converse"})
+    refused_rewrites_family(ctx)
     ctx.rule = rule + (" A second batch uses generator mode c02 (repeated metavariables with identical, almost identical and different "
                        "fillers), a third one mode c09 (chains of changes in which a later change matches only what an earlier one produced).")
 
@@ -626,6 +754,13 @@ def kinds_and_names_family(ctx, checks):
          ["twice(n.a, n.b, k)", "twice(q.n, q.m, k)", "twice(a, a, k)", "twice(n, n, n)", "twice(f(n), f(m), k)", "twice(n.a, n.a, n)"]),
         ("@@\nvar x, y expression\n@@\n-swap(x, y, x)\n+swap(y, x, y)\n",
          ["swap(p.x, q, p.y)", "swap(p.x, q, p.x)", "swap(y, x, y)", "swap(a.y, x, a.x)"]),
+        # an instance at the head of a near-instance (receiver of a call chain, left operand, indexed value): the attempt on the
+        # outer node binds and fails, the inner node is tried next
+        ("@@\nvar x, y expression\n@@\n-x.Set(y, y)\n+x.SetBoth(y)\n",
+         ["b.Set(1, 1).Set(2, 3)", "b.Set(2, 3).Set(1, 1)", "b.Set(1, 1).Set(2, 2)", "c.Set(1, 2).Set(3, 3).Set(4, 5)", "d.Set(9, 9).Set(8, 7).Set(6, 5)"]),
+        ("@@\nvar x expression\n@@\n-x - x\n+zero\n", ["r := a - a - b", "s := a - b - b", "t := (a - a) - (a - a)", "u := a - a - a", "v := f(a) - f(a) - g"]),
+        ("@@\nvar m, k expression\n@@\n-m[k][k]\n+diag(m, k)\n", ["_ = t[1][1][2]", "_ = t[1][2][2]", "_ = t[3][3]", "_ = t[i][i][j][j]", "_ = u[0][0][0]"]),
+        ("@@\nvar f identifier\nvar a expression\n@@\n-f(a)(a)\n+twice(f, a)\n", ["mk(1)(1)(2)", "mk(1)(2)(2)", "mk(3)(3)", "mk(x)(x)(x)"]),
     ]
     cases = []
     for k, (patch, lines) in enumerate(table):
@@ -775,6 +910,7 @@ def c03(ctx):
     ctx.rule += (" Plus a table of '+' sides of every syntactic form a type can take, over sites in every position a type can stand in "
                  "(and in expression positions): hand-written expectation = the '-' text replaced by the '+' text at every site.")
     c03_type_positions(ctx)
+    refused_rewrites_family(ctx)
 
 TYPE_PLUS = ["OrderedSet[T]", "pkg.Map[string, T]", "*T", "[]T", "[4]T", "map[string]T", "chan T", "<-chan T", "func(T) error", "(T)",
              "struct{ v T }", "interface{ M() T }", "pkg.Set", "Set2", "G[T, U]", "[]*pkg.G[T]"]
@@ -862,6 +998,7 @@ def c04(ctx):
     # the front end's chain from the bytes of the patch to those places, against the model's
     split_tie(ctx, [{"id": r[0].get("id"), "patch": p} for r in res for p in r[0].get("patches", [])])
     elisions_over_generated_code(ctx)
+    repetitive_runs_family(ctx)
 
 ELISION_CHAINS = [
     (["@@\n@@\n-fetch(...)\n+fetchContext(ctx, ...)\n", "@@\n@@\n-fetchContext(ctx, ...)\n+client.Fetch(ctx, ...)\n"],
@@ -882,6 +1019,36 @@ ELISION_CHAINS = [
     (["@@\nvar x expression\n@@\n-log(x, ...)\n+logger.Info(x, ...)\n", "@@\nvar x expression\n@@\n-logger.Info(x, ...)\n+logger.With(...).Info(x)\n"],
      "package a\n\nfunc run() {\n\tlog(\"m\", k, v)\n\tlog(\"n\")\n\tlogger.Info(\"o\", w)\n}\n"),
 ]
+
+def repetitive_runs_family(ctx):
+    """C04 "exactly when some choice of runs exists": lists over a two-letter alphabet, where a section after an elision begins to
+    match at several places and only one of them - possibly inside a place that matched in part - lets the rest match; every
+    list of length 3..6 against every section of length 2..4, as arguments and as statements. The complete reference matcher
+    of the model (all choices) decides."""
+    import itertools
+    cases = []
+    lists = ["".join(t) for n in range(3, 7) for t in itertools.product("ab", repeat=n)]
+    if ctx.tier == "quick":
+        lists = [l for i, l in enumerate(lists) if i % 2 == 0 or len(l) >= 5]
+    arg = lambda w: ", ".join({"a": "nil", "b": "err"}[c] for c in w)
+    stm = lambda w, ind: "".join(ind + {"a": "step()", "b": "commit()"}[c] + "\n" for c in w)
+    k = 0
+    for n in (2, 3, 4):
+        for sec in ("".join(t) for t in itertools.product("ab", repeat=n)):
+            for form, pat in (("tail", f"-notify(..., {arg(sec)})\n+told(...)\n"), ("mid", f"-notify(..., {arg(sec)}, ...)\n+told(...)\n"),
+                              ("head-tail", f"-notify(nil, ..., {arg(sec)})\n+told(...)\n"), ("two", f"-notify(..., {arg(sec[:1])}, ..., {arg(sec[1:])})\n+told(...)\n")):
+                src = "package a\n\nfunc f() {\n" + "".join(f"\tnotify({arg(l)})\n" for l in lists) + "}\n"
+                cases.append({"id": f"rep-args-{form}-{sec}", "patches": ["@@\n@@\n" + pat], "src": src})
+            spat = "@@\n@@\n begin()\n ...\n" + stm(sec[:-1], " ") + stm(sec[-1:], "-") + "+done()\n"
+            ssrc = "package a\n\n" + "".join(f"func f{i}() {{\n\tbegin()\n{stm(l, chr(9))}}}\n\n" for i, l in enumerate(lists))
+            cases.append({"id": f"rep-stmts-{sec}", "patches": [spat], "src": ssrc})
+    res = run_engine_batch(ctx, ["-inputs", write_jsonl(ctx, cases)], "reps")
+    ctx.count("repetitive_run_cases", len(res))
+    if len(res) != len(cases):
+        ctx.violation("a case of the repetitive-runs table is not answered by the engine or the model",
+                      {"input": {"missing": sorted(set(c["id"] for c in cases) - set(r[0]["id"] for r in res))[:10]}})
+    engine_projection(ctx, res, {"status", "where", "content", "converse"})
+    cli_projection(ctx, res, {"status", "content"}, 30 if ctx.tier == "quick" else len(res))
 
 def elisions_over_generated_code(ctx):
     """C04 over several changes: a later change's "..." has to be matched against code that an earlier change of the run generated
@@ -931,6 +1098,7 @@ def c05(ctx):
     engine_family(ctx, "c05", {"outside"})
     rule = ctx.rule
     bystanders_family(ctx)
+    refused_rewrites_family(ctx, {"status", "outside", "content"})
     # code that only resembles an instance (a repeated metavariable over code that differs, an identifier metavariable over
     # a selector) is outside every rewritten fragment
     kinds_and_names_family(ctx, {"outside", "decisions", "where"})
@@ -1475,8 +1643,112 @@ def cli_print_triples(ctx, cases, flags=()):
     with ThreadPoolExecutor(max_workers=12) as ex:
         return [t for t in ex.map(one, [c for c in cases if len(c.get("patches", [])) == 1]) if t]
 
+CRASHERS = [
+    # (patch, a file in which applying it goes wrong inside gopatch, the same patch applied to a file where it works)
+    ("@@\n@@\n-foo(...)\n+bar = ...\n", "package a\n\nfunc first() {\n\tfoo()\n}\n", "package a\n\nfunc second() {\n\tfoo(1)\n}\n"),
+    ("@@\n@@\n-foo(...)\n+return ...\n", "package a\n\nfunc first() int {\n\tfoo()\n\treturn 0\n}\n", "package a\n\nfunc second() int {\n\tfoo(1)\n\treturn 0\n}\n"),
+    ("@@\nvar x expression\n@@\n-foo(x, ...)\n+x = ...\n", "package a\n\nfunc first() {\n\tfoo(v)\n}\n", "package a\n\nfunc second() {\n\tfoo(v, 1)\n}\n"),
+]
+
+def crashing_rewrite_family(ctx, what):
+    """Patches whose result is not a well-formed tree for some files (an assignment without a right-hand side): whatever goes wrong
+    inside gopatch while such a file is patched is that file's failure - reported with its name, exit status 1, no stack trace -
+    and the files after it are processed"""
+    for k, (patch, bad, good) in enumerate(CRASHERS):
+        for names in (("a_first.go", "b_second.go"), ("b_second.go", "z_first.go"), ("a_first.go", "m_second.go", "z_first.go")):
+            for flags in ([], ["--print-only"], ["--diff"]):
+                root = ctx.scratch("crash")
+                files = {nm: (bad if "first" in nm else good) for nm in names}
+                cl.write_tree(root, dict(files, **{"p.patch": patch}))
+                solo = {}
+                for nm in names:
+                    solo[nm] = cl.gopatch(ctx.gopatch, root, ["-p", "p.patch", "--print-only", nm], timeout=60)
+                code, out, err = cl.gopatch(ctx.gopatch, root, ["-p", "p.patch"] + flags + list(names), timeout=60)
+                e, so = err.decode("utf-8", "replace"), out.decode("utf-8", "replace")
+                ctx.evaluations += 1
+                ctx.count("crashing_rewrite_runs")
+                ctx.nontrivial.add(f"crash:{k}:{names}:{flags}")
+                probs = []
+                if code not in (0, 1) or "goroutine " in e or "panic:" in e.split("could not")[0]:
+                    probs.append(f"the run ends with exit status {code} and a stack trace instead of a diagnostic")
+                for nm in names:
+                    scode, sout, serr = solo[nm]
+                    now = open(os.path.join(root, nm), "rb").read()
+                    if scode == 0:
+                        # fine alone: the same in company
+                        if not flags and now != sout:
+                            probs.append(f"{nm} is patched when processed alone but " + ("was left untouched" if now == files[nm].encode() else "holds other bytes") + " in this run")
+                        if flags == ["--print-only"] and sout.decode("utf-8", "replace") not in so:
+                            probs.append(f"{nm} is printed when processed alone but not in this run")
+                    else:
+                        if code == 0:
+                            probs.append(f"{nm} fails when processed alone (exit {scode}) but this run exits 0")
+                        if nm not in e:
+                            probs.append(f"{nm} fails when processed alone but this run's stderr does not name it")
+                        if now != files[nm].encode():
+                            probs.append(f"{nm} fails when processed alone but its bytes changed in this run")
+                for pr in probs[:3]:
+                    ctx.violation(f"{what}: {pr}", {"input": {"patches": [patch], "files": files, "flags": flags, "args": list(names)}, "exit": code, "stderr": e[-800:]})
+                shutil.rmtree(root, ignore_errors=True)
+
+def unwritable_target_family(ctx, what):
+    """A target whose result cannot be written (its temporary sibling cannot be created: a 250-byte name; standard output is
+    full) among targets that can: the one that fails keeps its original bytes and is reported by name with a non-zero exit,
+    every other requested file is still processed - before it and after it in path order - and holds exactly the bytes
+    --print-only prints for it; dry runs write nothing."""
+    longname = "m" * 247 + ".go"
+    body = lambda tag: "package a\n\nfunc " + tag + "() {\n" + "".join(f"\taRatherLongFunctionName({i})\n" for i in range(30)) + "}\n"
+    files = {"a.go": body("a"), longname: body("m"), "n.go": body("n"), "sub/z.go": body("z"), "unmatched.go": "package a\n\nfunc  u( ) { }\n"}
+    patches = {"shrinks": "@@\nvar x expression\n@@\n-aRatherLongFunctionName(x)\n+g(x)\n",
+               "grows": "@@\nvar x expression\n@@\n-aRatherLongFunctionName(x)\n+aRatherLongFunctionNameWithContext(ctx, x)\n",
+               "same-size": "@@\nvar x expression\n@@\n-aRatherLongFunctionName(x)\n+bRatherLongFunctionName(x)\n"}
+    for pname, patch in patches.items():
+        root = ctx.scratch("unwr")
+        cl.write_tree(root, dict(files, **{"p.patch": patch}))
+        want = {}
+        for rel in files:
+            code, out, err = cl.gopatch(ctx.gopatch, root, ["-p", "p.patch", "--print-only", rel])
+            want[rel] = out if code == 0 else None
+        before = cl.digest(root)
+        for flags in (["--diff"], ["--print-only"]):
+            try:
+                with open("/dev/full", "wb") as full:
+                    r = subprocess.run([ctx.gopatch, "-p", "p.patch"] + flags + ["."], cwd=root, stdout=full, stderr=subprocess.PIPE, timeout=60)
+                code, err = r.returncode, r.stderr.decode("utf-8", "replace")
+            except (OSError, subprocess.TimeoutExpired) as e:
+                code, err = "n/a", str(e)
+            ctx.evaluations += 1
+            ctx.nontrivial.add(f"unwritable:{pname}:{flags[0]}:stdout-full")
+            if code == 0:
+                ctx.violation(f"{what}: standard output is full, nothing of the {flags[0]} output could be delivered, and the exit status is 0",
+                              {"input": {"patch": patch, "files": sorted(files), "flags": flags, "stdout": "/dev/full"}, "stderr": err[-400:]})
+            if cl.digest(root) != before:
+                ctx.violation(f"{what}: a dry run ({flags[0]}, standard output full) changed the directory",
+                              {"input": {"patch": patch, "files": sorted(files), "flags": flags, "stdout": "/dev/full"}})
+        code, out, err = cl.gopatch(ctx.gopatch, root, ["-p", "p.patch", "."])
+        e = err.decode("utf-8", "replace")
+        ctx.evaluations += 1
+        ctx.nontrivial.add(f"unwritable:{pname}:in-place")
+        ctx.count("unwritable_target_runs")
+        probs = []
+        for rel, src in files.items():
+            now = open(os.path.join(root, rel), "rb").read()
+            if rel == longname:
+                if now != src.encode() and now != want[rel]:
+                    probs.append(f"the file whose temporary sibling cannot be created holds neither its original bytes nor what --print-only prints for it ({len(now)} bytes; original {len(src)}, patched {len(want[rel] or b'')})")
+                if now == src.encode() and (code == 0 or longname[:40] not in e):
+                    probs.append(f"the file that could not be written is not reported: exit {code}, stderr {e.strip()[-160:]!r}")
+            elif want[rel] is not None and now != want[rel]:
+                probs.append(f"{rel} (which can be written) does not hold the bytes --print-only prints for it: " +
+                             ("it was not touched" if now == src.encode() else f"{len(now)} bytes against {len(want[rel])}"))
+        for pr in probs:
+            ctx.violation(f"{what}: {pr}", {"input": {"patch": patch, "files": {k: (v if len(k) < 50 else "...") for k, v in files.items()}, "args": ["-p", "p.patch", "."]},
+                                            "exit": code, "stderr": e[-600:]})
+        shutil.rmtree(root, ignore_errors=True)
+
 @prop("C12")
 def c12(ctx):
+    unwritable_target_family(ctx, "C12")
     triples = []
     def post(ctx, sc, opts, infos, pred, obs, work):
         if opts == ["print"]:
@@ -1965,6 +2237,12 @@ def c07(ctx):
     scen = []
     for k, (patch, src) in enumerate(MISFIT):
         scen.append(Scenario(f"misfit{k}", [patch], {"m.go": src, "other.go": "package a\n\nfunc g() { foo(7) }\n"}, "misfit"))
+    # several files of one run whose rewrites are unparseable in the same way (the same messages at the same or at other places):
+    # each of them is refused
+    for k, (patch, src) in enumerate(MISFIT):
+        moved = src.replace("package a\n", "package a\n\n// moved down\n\nvar pad = 0\n", 1)
+        scen.append(Scenario(f"misfit{k}-thrice", [patch], {"m.go": src, "n.go": re.sub(r"\b1\b", "11", src), "sub/o.go": moved, "other.go": "package a\n\nfunc g() { foo(7) }\n"},
+                             "the same unparseable rewrite in three files"))
     # the same rewrites in files with features that influence how the result is post-processed
     for k, (patch, src) in enumerate(MISFIT[: (3 if ctx.tier == "quick" else len(MISFIT))]):
         for fname, deco in FILE_DECORATIONS:
@@ -2182,6 +2460,10 @@ def c14(ctx):
         files2 = {nm: ("package a\n\nfunc f() {\n\tcall(obj, mk())\n}\n" if "bad" in nm else f"package a\n\nfunc g{j}() {{\n\tcall(obj, Name{j})\n}}\n") for j, nm in enumerate(names)}
         scen.append(Scenario(f"rerr2_{pos}", ["@@\nvar recv, name expression\n@@\n-call(recv, name)\n+recv.name()\n"], files2,
                              "site-dependent rewrite error before a file where the change applies"))
+    for pos, names in enumerate((("a.go", "b.go"), ("a.go", "b.go", "c/d.go"))):
+        files = {nm: f"package a\n\nfunc f{j}() {{\n\tfoo({j})\n}}\n" for j, nm in enumerate(names)}
+        for rk, rp in enumerate((_NODOTS, _KINDS.replace("run", "foo"), _PLUSONLY.replace("h(x)", "foo(x)"))):
+            scen.append(Scenario(f"rerr3_{pos}_{rk}", [rp], files, "a change that is refused in every file it matches: in each of them alike"))
     # one directory, two packages (a package and its external tests), patches guarded by a package clause: what a file's
     # neighbours are called or contain does not decide about it
     for gi, (pk, first) in enumerate((("store_test", "a_"), ("store_test", "z_"), ("store", "a_"), ("store", "z_"))):
@@ -2533,6 +2815,8 @@ FAILSTEP_ORDERS = [("bad", "good1"), ("good1", "bad"), ("good1", "bad", "good2")
 @prop("C16")
 def c16(ctx):
     ctx.level = "proof"
+    unwritable_target_family(ctx, "C16")
+    crashing_rewrite_family(ctx, "C16")
     # a patch source that cannot be loaded is a failure of the run: reported, non-zero exit, nothing rewritten (loader model)
     loader_tie(ctx, n_quick=40, n_thorough=800)
     ctx.rule = CLI_RULE + (" For this property failures are enumerated: a file that does not parse / whose rewrite fails / whose result "
@@ -2923,6 +3207,8 @@ def c15_through_a_linked_directory(ctx):
 def c15(ctx):
     facts_tie(ctx)
     c15_through_a_linked_directory(ctx)
+    # "every requested file": also the ones after a file whose result could not be written
+    unwritable_target_family(ctx, "C15")
     ctx.rule = ("directory trees (nesting up to 4; directory names incl. vendor, testdata, .git, _tmp, a.go, vendors; files incl. "
                 ".hidden.go, _under.go, non-.go names, symlinks to files and directories, dangling links, fifos) are created on disk; "
                 "argument lists mix '.', './...', sub-directories with and without '...', absolute paths, '../<cwd>/x', 'd/..', 'd/../...', explicit "
@@ -3237,7 +3523,8 @@ def front_cases_with_faults(ctx, rng, n):
         ctx.broken("generator", "no acceptable building-block patch")
         return []
     out = []
-    kinds = ["badname", "junk", "unknowntype", "duplicate", "duplicate2", "missingtype", "extratoken", "novar", "illegal", "none"]
+    kinds = ["badname", "junk", "unknowntype", "duplicate", "duplicate2", "missingtype", "extratoken", "novar", "illegal", "none",
+             "opencomment", "opencomment-own-line", "openstring", "nulchar"]
     for k in range(n):
         nch = rng.randint(1, 4)
         fault_at = rng.randrange(nch)
@@ -3260,7 +3547,8 @@ def front_cases_with_faults(ctx, rng, n):
                 lines.append("junk here")
                 expect = (len(lines), 1, "badheader")
             lines.append(header)
-            if ci == fault_at and kind in ("unknowntype", "duplicate", "duplicate2", "missingtype", "extratoken", "novar", "illegal"):
+            if ci == fault_at and kind in ("unknowntype", "duplicate", "duplicate2", "missingtype", "extratoken", "novar", "illegal",
+                                           "opencomment", "opencomment-own-line", "openstring", "nulchar"):
                 for _ in range(rng.randint(0, 2)):
                     # blank lines, patch comments, and Go comments (go/scanner reads the section): among them comments
                     # that look like line directives, which must not move the reported position
@@ -3290,6 +3578,20 @@ def front_cases_with_faults(ctx, rng, n):
                 elif kind == "illegal":
                     meta.append(ind + "var zq9 $ expression")
                     expect = (len(lines) + len(meta), len(ind) + 9, "other")
+                elif kind == "opencomment":
+                    # what only the scanner objects to: a comment that is never closed after a complete declaration
+                    meta.append(ind + "var zq9 expression /* never closed")
+                    expect = (len(lines) + len(meta), len(ind) + 20, "other")
+                elif kind == "opencomment-own-line":
+                    meta.append("var zq9 expression")
+                    meta.append(ind + "/* never closed")
+                    expect = (len(lines) + len(meta), len(ind) + 1, "other")
+                elif kind == "openstring":
+                    meta.append(ind + "var zq9 expression \"open")
+                    expect = (len(lines) + len(meta), len(ind) + 20, "other")
+                elif kind == "nulchar":
+                    meta.append(ind + "var zq9 expression // nul \x00 here")
+                    expect = (len(lines) + len(meta), len(ind) + 27, "other")
             # '#' lines inside the metavariable section do not count as lines of it, but they are lines of the file
             lines += meta
             lines.append("@@")
@@ -3721,6 +4023,23 @@ def c13(ctx):
         for sp in sorted(set(re.findall(r"[A-Za-z_]\w*", rsrc)) - GO_KEYWORDS - set(re.findall(r"[A-Za-z_]\w*", base_p))):
             batch.append({"id": f"r{ri}v{sp}", "patches": [tmpl.replace("{M}", sp)], "src": rsrc})
             meta_info[f"r{ri}v{sp}"] = (f"r{ri}", [f"metavariable-spelled-{sp}"])
+    # changes without a line of code (everything commented out, nothing at all, blanks only), alone and next to a change that
+    # applies: whether the patch is accepted does not depend on the blank lines and '#' lines around them
+    strict = set()
+    good_change = "@@\nvar x expression\n@@\n-foo(x)\n+bar(x)\n"
+    esrc = "package a\n\nfunc f() {\n\tfoo(42)\n}\n"
+    empties = {"commented-out": ["@@\n@@\n# -old(x)\n# +new(x)\n", "@@\n@@\n\n# -old(x)\n# +new(x)\n", "@@\n@@\n# -old(x)\n\n# +new(x)\n\n", "\n@@\n@@\n# -old(x)\n# +new(x)\n\n\n"],
+               "nothing": ["@@\n@@\n", "@@\n@@\n\n", "@@\n@@\n\n\n\n", "@@\n@@"],
+               "with-metavariables": ["@@\nvar x expression\n@@\n# gone\n", "@@\nvar x expression\n@@\n\n# gone\n\n", "@@\nvar x expression\n\n@@\n# gone\n"]}
+    for ename, forms in empties.items():
+        for where in ("alone", "before", "after", "between"):
+            for fi, form in enumerate(forms):
+                text = {"alone": form, "before": form + good_change, "after": good_change + form, "between": good_change + form + good_change}[where]
+                bid = f"empty-{ename}-{where}-{fi}"
+                batch.append({"id": bid, "patches": [text], "src": esrc})
+                if fi > 0:
+                    meta_info[bid] = (f"empty-{ename}-{where}-0", [f"blank-lines-around-a-change-without-code-{fi}"])
+                    strict.add(bid)
     d = ctx.scratch("c13")
     p = os.path.join(d, "in.jsonl")
     with open(p, "w") as f:
@@ -3735,6 +4054,9 @@ def c13(ctx):
         ctx.evaluations += 1
         ctx.count("transform:" + "+".join(done))
         if oid not in by_id:
+            if vid in strict and vid in by_id:
+                ctx.violation(f"a patch that is not accepted is accepted once laid out differently ({'+'.join(done)})",
+                              {"input": {"original": [b for b in batch if b['id'] == oid][0]["patches"][0], "variant": by_id[vid][0]["patches"][0], "src": by_id[vid][0]["src"]}})
             continue   # the original patch is not accepted; nothing to compare
         oinp, _, oimpl, omodel, osame = by_id[oid]
         if vid not in by_id:
@@ -3853,7 +4175,7 @@ def c13(ctx):
             ctx.violation(f"descriptions {got}: expected exactly the '#' lines directly above each header {c['want']}", {"input": {"patch": c["patch"]}})
 
 # --- C08 -------------------------------------------------------------------
-ILL_TYPED = [
+ILL_TYPED = [(p_, b_) for p_, b_, g_ in CRASHERS] + [
     ("@@\nvar x expression\n@@\n-foo(x)\n+bar.x\n", "package a\n\nfunc f() { foo(g(1)) }\n"),
     ("@@\nvar x expression\n@@\n+x = bar(...)\n-x = foo(...)\n", "package a\n\nfunc f() { x = foo(1, 2) }\n"),
     ("@@\nvar x expression\n@@\n-foo(x)\n+bar(... + x)\n", "package a\n\nfunc f() { foo(1) }\n"),
@@ -3936,6 +4258,11 @@ def deep_cases():
     out.append(("@@\n@@\n-foo(...)\n+bar(...)\n", "package a\n\nfunc f() {\n\tfoo(" + ", ".join("g(" + str(i) + ")" for i in range(2000)) + ")\n}\n"))
     out.append(("@@\nvar x expression\n@@\n x\n ...\n-foo(x)\n+bar(x)\n", "package a\n\nfunc f() {\n" + "\tuse(1)\n" * 400 + "\tfoo(1)\n}\n"))
     return out
+
+TARGET_ARGS = [["nosuch.go"], ["a.go", "nosuch.go"], ["nosuch.go", "a.go"], ["./missing/..."], ["a.go", "missing/sub/..."], ["nosuch"], [""], ["a.go", ""],
+               ["dir.go"], ["dir.go/..."], ["dangling.go"], ["a.go", "dangling.go"], ["loop"], ["loop/..."], ["empty"], ["empty/..."], ["notgo.txt"],
+               ["a.go/"], ["a.go/..."], ["a.go/x.go"], ["x" * 300 + ".go"], ["d/" * 2100 + "x.go"], ["..."], ["/..."[1:]], ["/nonexistent-root/x.go"],
+               ["locked/../nosuch.go"], ["./a.go", "./././nosuch/../a.go"], ["-"], ["--", "nosuch.go"], ["a.go", "a.go", "nosuch.go", "nosuch.go"]]
 
 def mutate_bytes(rng, s):
     b = bytearray(s.encode())
@@ -4101,6 +4428,33 @@ def c08(ctx):
                 ctx.violation(f"the gopatch binary crashed (exit {code}) on {what}: {err[-300:]}", {"input": {"how": what, "patch": good}})
             elif code == 1 and not err.strip():
                 ctx.violation(f"non-zero exit without a diagnostic on {what}", {"input": {"how": what, "patch": good}})
+    # target arguments that cannot be processed: missing, not what they seem, too long, unreadable - alone and next to a good one
+    def target_one(k):
+        args = TARGET_ARGS[k]
+        root = ctx.scratch("c08tgt")
+        cl.write_tree(root, {"p.patch": good, "a.go": "package a\n\nfunc f() { foo(1) }\n", "dir.go/inner.go": "package d\n\nfunc g() { foo(2) }\n",
+                             "empty/.keep": "", "notgo.txt": "foo(1)\n"})
+        os.symlink("nowhere.go", os.path.join(root, "dangling.go"))
+        os.symlink("loop", os.path.join(root, "loop"))
+        os.makedirs(os.path.join(root, "locked"))
+        with open(os.path.join(root, "locked", "x.go"), "w") as f:
+            f.write("package l\n\nfunc h() { foo(3) }\n")
+        code, out, err = cl.gopatch(ctx.gopatch, root, ["-p", "p.patch", "--print-only"] + args, timeout=20)
+        shutil.rmtree(root, ignore_errors=True)
+        return [("targets " + " ".join(a[:40] for a in args), code, err.decode("utf-8", "replace"))]
+    with ThreadPoolExecutor(max_workers=16) as ex:
+        touts = list(ex.map(target_one, range(len(TARGET_ARGS))))
+    for res in touts:
+        for what, code, err in res:
+            ctx.evaluations += 1
+            ctx.count("target_arguments")
+            ctx.nontrivial.add("tgt:" + what)
+            if code == "timeout":
+                ctx.violation(f"the gopatch binary did not terminate within 20 s ({what})", {"input": {"how": what, "patch": good}})
+            elif code not in (0, 1) or "panic:" in err or "goroutine " in err:
+                ctx.violation(f"the gopatch binary crashed (exit {code}) on {what}: {err[-300:]}", {"input": {"how": what, "patch": good}})
+            elif code == 1 and not err.strip():
+                ctx.violation(f"non-zero exit without a diagnostic on {what}", {"input": {"how": what, "patch": good}})
     # parentheses written around a metavariable, over code that is parenthesised already (and not): nested parentheses in
     # what is generated; the run ends, with the tree the model predicts
     pcases = []
@@ -4188,6 +4542,8 @@ def c10(ctx):
                 "occurs; expectation from the README table; the real engine's decision and result are compared with the table and "
                 "with the Lean model (matchImport/fileMatch). Plus the generated import stream of the engine family. Non-trivial = "
                 "guards hold and the file is rewritten; distinct = distinct (patch, file).")
+    # guards of later changes are evaluated on what the earlier ones left: a refused change leaves nothing (its package clause, its imports)
+    refused_rewrites_family(ctx)
     path = "example.com/pkg"
     pforms = {"absent": None, "unnamed": f'"{path}"', "named-same": f'pkg "{path}"', "named-other": f'other "{path}"',
               "metavar": f'nm "{path}"', "dot": f'. "{path}"', "blank": f'_ "{path}"'}
@@ -4418,6 +4774,8 @@ def c10(ctx):
 @prop("C11")
 def c11(ctx):
     res = engine_family(ctx, "c11", {"imports", "decisions"}, n_quick=500)
+    # the import edits of a change that is refused for the file are not made, the code edits of the others are
+    refused_rewrites_family(ctx, {"status", "content", "decisions", "imports"})
     # the same cases through the library API (which parses the file itself): its import declarations must be the model's
     cases, want = [], {}
     for inp, orig, impl, model, same in res:
@@ -4653,6 +5011,8 @@ def c09(ctx):
     res = engine_family(ctx, "c09", {"decisions", "status"}, n_quick=300, n_thorough=8000, golden=True)
     # which patches a run consists of, and in which order (flags, then the -P list, or stdin): the loader against its model
     loader_tie(ctx)
+    # "if any step fails, the combined run reports the failure and leaves the file untouched": command line and library
+    refused_rewrites_family(ctx)
     # CLI chain check
     rng = random.Random(ctx.seed)
     cases = [c for c in gen_cases(ctx, "c09", 150 if ctx.tier == "quick" else 3000, ctx.seed + 7, golden=False) if c.get("chain")]
